@@ -25,6 +25,7 @@ verus! {
 //@include shims/varint.rs
 impl Script {
 //@stub Script::to_bytes
+//@stubrest Script
 }
 impl Hash {
 //@stub Hash::sha_256d
@@ -35,18 +36,24 @@ impl TxIn {
 //@fn TxIn::get_sequence
 //@fn TxIn::get_outpoint_bytes
 //@fn TxIn::get_sequence_as_bytes
+//@stubrest TxIn
 }
 impl TxOut {
 //@stub TxOut::to_bytes_impl
+//@stubrest TxOut
 }
 impl Transaction {
 //@stub Transaction::get_input
+//@stub Transaction::get_ninputs
+//@stub Transaction::get_version
+//@stub Transaction::get_n_locktime
 //@stub Transaction::get_output
 //@stub Transaction::get_noutputs
 //@fn Transaction::hash_inputs
 //@fn Transaction::hash_sequence
 //@fn Transaction::hash_outputs
 //@fn Transaction::sighash_bip143
+//@stubrest Transaction
 }
 } // verus!
 fn main() {}
